@@ -221,4 +221,242 @@ Proof.
     unfold r1 in *. cbn [rflags maxsz reserved padded rsec inc_count set_out set_rsec] in *.
     repeat split; try assumption; lia.
 Qed.
+
+Lemma add_rrsets_chain_u0 sec : forall l r r' file,
+  1 <= sec <= 3 ->
+  zlen file = zlen (out r) -> TableSound file (tbl r) -> TblBelow r -> Forall (wf_urrset sec) l ->
+  add_rrsets o sec l r = Ok (false, r') ->
+  exists em ds,
+    out r' = out r ++ em /\ TableSound (file ++ em) (tbl r') /\ TblBelow r' /\
+    Chain o (file ++ em) (length file) ds (length (file ++ em)) /\ Forall2 (udesc sec) l ds /\
+    count_of r' sec = count_of r sec + zlen ds /\
+    (forall s, 0 <= s <= 3 -> s <> sec -> count_of r' s = count_of r s) /\
+    rflags r' = rflags r /\ maxsz r' = maxsz r /\ reserved r' = reserved r /\ padded r' = padded r /\
+    rsec r <= rsec r' <= Z.max (rsec r) sec /\
+    (forall (l2 : list rrset) tq, False -> tbl_ci tq (tbl r) ->
+       exists tq', add_rrsets o sec l2 (with_tbl r tq) = Ok (false, with_tbl r' tq') /\ tbl_ci tq' (tbl r')).
+Proof.
+  intros l r r' file Hsec Hz TS TB WF H.
+  destruct (add_rrsets_chain_u sec l r r' file Hsec Hz TS TB WF H)
+    as (em & ds & A1 & A2 & A3 & A4 & A5 & A6 & A7 & A8 & A9 & A10 & A11 & A12).
+  exists em, ds. repeat (split; [assumption|]). intros l2 tq [].
+Qed.
+
 End UpdRender.
+
+(* ---------- the whole update message ---------- *)
+Section UpdMsg.
+Variable o : option name.
+Hypothesis OO : org_ok o.
+
+Record WfUpd (m : msg) (z : rrset) : Prop := mkWfU {
+  wu_update : (opcode_from_flags (mflags m) =? 5) = true;
+  wu_zone : mq m = [z];
+  wu_zname : name_wf o (rname z);
+  wu_ztype : rtype z = tSOA;
+  wu_zclass : is_metaclass (rclass z) = false;
+  wu_an : Forall (wf_urrset o (rclass z) 1) (man m);
+  wu_au : Forall (wf_urrset o (rclass z) 2) (mau m);
+  wu_ad : Forall (wf_urrset o (rclass z) 3) (mad m);
+  wu_opt : match mopt m with Some oo => opts_ok (oopts oo) /\ name_wf o [[]] | None => True end }.
+
+Definition read_result_u (zc id fl : Z) (q : qd) (ds1 ds2 ds3 : list rrd) (oo : option optrec)
+           (t : option (name * rdata)) : msg :=
+  let m1 := add_q (mkMsg id fl [] [] [] [] None None) q in
+  let m2 := fold_left (apply_u zc 1) ds1 m1 in
+  let m3 := fold_left (apply_u zc 2) ds2 m2 in
+  let m4 := fold_left (apply_u zc 3) ds3 m3 in
+  let m5 := match oo with Some o' => set_opt m4 o' | None => m4 end in
+  match t with Some (kn, rd) => set_tsig m5 kn rd | None => m5 end.
+
+Lemma apply_u_keeps zc sec m d : 1 <= sec <= 3 ->
+  mopt (apply_u zc sec m d) = mopt m /\ mq (apply_u zc sec m d) = mq m /\
+  mtsig (apply_u zc sec m d) = mtsig m /\ mid (apply_u zc sec m d) = mid m /\
+  mflags (apply_u zc sec m d) = mflags m /\
+  get_sec (apply_u zc sec m d) sec = get_sec m sec ++ [urrset zc sec d] /\
+  (forall s, 1 <= s <= 3 -> s <> sec -> get_sec (apply_u zc sec m d) s = get_sec m s).
+Proof.
+  intros Hs. split; [reflexivity|]. split; [apply apply_u_mq; exact Hs|]. split; [reflexivity|].
+  split; [reflexivity|]. split; [reflexivity|]. split.
+  - unfold apply_u. apply get_set_sec. lia.
+  - intros s Hr Hne. unfold apply_u, get_sec, set_sec. cbn [mq man mau mad].
+    assert (s = 1 \/ s = 2 \/ s = 3) as [Hx|[Hx|Hx]] by lia; subst s; cbn [Z.eqb Pos.eqb];
+      destruct (Z.eqb_spec sec 0); destruct (Z.eqb_spec sec 1); destruct (Z.eqb_spec sec 2); destruct (Z.eqb_spec sec 3);
+      try lia; reflexivity.
+Qed.
+
+Lemma fold_apply_u_keeps zc sec ds : 1 <= sec <= 3 -> forall m,
+  mopt (fold_left (apply_u zc sec) ds m) = mopt m /\ mq (fold_left (apply_u zc sec) ds m) = mq m /\
+  mtsig (fold_left (apply_u zc sec) ds m) = mtsig m /\ mid (fold_left (apply_u zc sec) ds m) = mid m /\
+  mflags (fold_left (apply_u zc sec) ds m) = mflags m /\
+  get_sec (fold_left (apply_u zc sec) ds m) sec = get_sec m sec ++ map (urrset zc sec) ds /\
+  (forall s, 1 <= s <= 3 -> s <> sec -> get_sec (fold_left (apply_u zc sec) ds m) s = get_sec m s).
+Proof.
+  intros Hs. induction ds as [|d ds IH]; intros m; cbn [fold_left map].
+  - rewrite app_nil_r. repeat split; reflexivity.
+  - destruct (IH (apply_u zc sec m d)) as (A & B & C & D & E & F & G).
+    destruct (apply_u_keeps zc sec m d Hs) as (A' & B' & C' & D' & E' & F' & G').
+    rewrite A, B, C, D, E, F, A', B', C', D', E', F'. rewrite <- app_assoc. cbn [app].
+    repeat split; try reflexivity.
+    intros s Hr Hne. rewrite (G s Hr Hne). apply G'; assumption.
+Qed.
+
+Lemma read_structure_u zc id fl q ds1 ds2 ds3 (oo : option optrec) (t : option (name * rdata)) owner' wb body
+      (e0 e1 e2 e3 e4 : nat) :
+  let w := hdr_bytes id fl 1 (zlen ds1) (zlen ds2) (zlen ds3 + opt_count oo + opt_count t) ++ body in
+  0 <= id <= 65535 -> 0 <= fl <= 65535 -> zlen ds1 <= 65535 -> zlen ds2 <= 65535 ->
+  zlen ds3 + opt_count oo + opt_count t <= 65535 ->
+  (opcode_from_flags fl =? 5) = true ->
+  QChain o w 12 [q] e0 -> q_ty q = tSOA -> is_metaclass (q_cl q) = false -> q_cl q = zc ->
+  Chain o w e0 ds1 e1 -> Chain o w e1 ds2 e2 -> Chain o w e2 ds3 e3 ->
+  Forall (ugood zc 1) ds1 -> Forall (ugood zc 2) ds2 -> Forall (ugood zc 3) ds3 ->
+  match oo with
+  | Some o' => (exists abs', RRreads o o w e3 abs' owner' tOPT (opayload o') (oflags o') [FRest] [PB wb] e4) /\
+               ci_equal owner' [[]] /\ opts_wire (oopts o') = Ok wb /\ opts_ok (oopts o')
+  | None => e4 = e3
+  end ->
+  match t with
+  | Some (kn', rd') => exists x, RRreads o None w e4 kn' x tTSIG cANY 0 tsig_fs rd' (length w)
+  | None => e4 = length w
+  end ->
+  from_wire w o po0 = Ok (read_result_u zc id fl q ds1 ds2 ds3 oo t).
+Proof.
+  intros w Hid Hfl H1 H2 H3 Hop QC QT QM QZ C1 C2 C3 O1 O2 O3 HO HT.
+  pose proof (zlen_nn ds1). pose proof (zlen_nn ds2). pose proof (zlen_nn ds3).
+  assert (Hoc : 0 <= opt_count oo <= 1) by (destruct oo; cbn; lia).
+  assert (Htc : 0 <= opt_count t <= 1) by (destruct t; cbn; lia).
+  destruct (hdr_read id fl 1 (zlen ds1) (zlen ds2) (zlen ds3 + opt_count oo + opt_count t) body) as (R0 & R2 & R4 & R6 & R8 & R10);
+    try lia.
+  fold w in R0, R2, R4, R6, R8, R10.
+  assert (Hl : (12 <= length w)%nat).
+  { unfold w, hdr_bytes. rewrite !app_length. cbn [length MessageM.u16]. lia. }
+  unfold from_wire. destruct (Nat.ltb_spec (length w) 12); [lia|].
+  rewrite R0, R2, R4, R6, R8, R10. cbn [bind]. rewrite Hop.
+  change (p_question_only po0) with false. cbv iota.
+  change (Z.to_nat 1) with 1%nat.
+  (* the zone section *)
+  set (m0 := mkMsg id fl [] [] [] [] None None).
+  assert (GQ : get_question w o true 1 12 m0 = Ok (e0, add_q m0 q)).
+  { inversion QC as [|? ? mid ? ? R QC']; subst. inversion QC'; subst. cbn [get_question].
+    destruct R as (_ & _ & R). destruct (R []) as (c1 & Hc & Hn & Ht & Hcl). rewrite app_nil_r in *.
+    rewrite Hn. cbn [bind fst snd]. rewrite Ht, Hcl. cbn [bind].
+    unfold parse_rr_header. cbn [negb Z.eqb]. rewrite QM, QT. change (tSOA =? tSOA) with true.
+    cbn [negb orb mq m0 bind]. replace (c1 + 4)%nat with e0 by lia. unfold add_q, find_add. rewrite ?QT. reflexivity. }
+  rewrite GQ. cbn [bind fst snd]. rewrite !zlen_to_nat.
+  set (m1 := add_q m0 q).
+  set (zr := mkRR (q_name q) (q_cl q) (q_ty q) 0 None 0 []).
+  assert (Z1 : mq m1 = [zr]) by reflexivity.
+  assert (QZ' : rclass zr = zc) by exact QZ.
+  pose proof (get_section_chain_u o zc w [] 1 (length ds1) zr [] ltac:(lia) QZ' ds1 e0 e1 0%nat m1 C1 O1 Z1) as G1.
+  rewrite app_nil_r in G1. rewrite G1. cbn [bind fst snd].
+  set (m2 := fold_left (apply_u zc 1) ds1 m1).
+  destruct (fold_apply_u_keeps zc 1 ds1 ltac:(lia) m1) as (K1o & K1q & _).
+  pose proof (get_section_chain_u o zc w [] 2 (length ds2) zr [] ltac:(lia) QZ' ds2 e1 e2 0%nat m2 C2 O2 (eq_trans K1q Z1)) as G2.
+  rewrite app_nil_r in G2. rewrite G2. cbn [bind fst snd].
+  set (m3 := fold_left (apply_u zc 2) ds2 m2).
+  destruct (fold_apply_u_keeps zc 2 ds2 ltac:(lia) m2) as (K2o & K2q & _).
+  set (cnt := Z.to_nat (zlen ds3 + opt_count oo + opt_count t)).
+  set (m4 := fold_left (apply_u zc 3) ds3 m3).
+  destruct (fold_apply_u_keeps zc 3 ds3 ltac:(lia) m3) as (K3o & K3q & _).
+  assert (HM : mopt m4 = None).
+  { unfold m4. rewrite K3o. unfold m3. rewrite K2o. unfold m2. rewrite K1o. reflexivity. }
+  set (no := Z.to_nat (opt_count oo)). set (nt := Z.to_nat (opt_count t)).
+  assert (Hcnt : cnt = (length ds3 + (no + nt))%nat) by (unfold cnt, no, nt, zlen; lia).
+  rewrite Hcnt. rewrite get_section_split.
+  pose proof (get_section_chain_u o zc w [] 3 (length ds3 + (no + nt)) zr [] ltac:(lia) QZ' ds3 e2 e3 0%nat m3 C3 O3
+                                  (eq_trans K2q (eq_trans K1q Z1))) as G3.
+  rewrite app_nil_r in G3. rewrite G3. cbn [bind fst snd]. fold m4.
+  rewrite get_section_split.
+  assert (GO : get_section w o po0 true 3 (length ds3 + (no + nt)) (0 + length ds3) no e3 true m4
+               = Ok (e4, true, match oo with Some o' => set_opt m4 o' | None => m4 end)).
+  { destruct oo as [o'|].
+    - destruct HO as ((abso & RO) & CI & HW & OK).
+      assert (Hno : no = 1%nat) by reflexivity. rewrite Hno. cbn [get_section].
+      pose proof (get_rr_opt o true w e3 abso owner' (opayload o') (oflags o') wb (oopts o') e4 [] (length ds3 + (1 + nt))
+                             (0 + length ds3) true m4 RO CI HW OK HM) as G.
+      rewrite app_nil_r in G. rewrite G. cbn [bind]. destruct o'; reflexivity.
+    - subst e4. assert (Hno : no = 0%nat) by reflexivity. rewrite Hno. reflexivity. }
+  rewrite GO. cbn [bind fst snd].
+  set (m5 := match oo with Some o' => set_opt m4 o' | None => m4 end).
+  destruct t as [[kn' rd']|].
+  - assert (Hnt : nt = 1%nat) by reflexivity. rewrite Hnt. cbn [get_section].
+    destruct HT as (x & HT).
+    pose proof (get_rr_tsig o true w e4 kn' x rd' (length w) [] (length ds3 + (no + 1)) (0 + length ds3 + no) true m5 HT) as G.
+    rewrite app_nil_r in G. rewrite G by lia. cbn [bind fst snd].
+    change (p_ignore_trailing po0) with false. change (p_raise_on_trunc po0) with false.
+    cbn [negb andb]. rewrite Nat.eqb_refl. cbn [negb andb]. rewrite andb_false_r.
+    unfold read_result_u. fold m0 m1 m2 m3 m4 m5. reflexivity.
+  - assert (Hnt : nt = 0%nat) by reflexivity. rewrite Hnt. cbn [get_section bind fst snd]. subst e4.
+    change (p_ignore_trailing po0) with false. change (p_raise_on_trunc po0) with false.
+    cbn [negb andb]. rewrite Nat.eqb_refl. cbn [negb andb]. rewrite andb_false_r.
+    unfold read_result_u. fold m0 m1 m2 m3 m4 m5. reflexivity.
+Qed.
+End UpdMsg.
+
+Section UpdFinal.
+Variable o : option name.
+Hypothesis OO : org_ok o.
+
+Lemma udesc_lists zc sec : 1 <= sec <= 3 -> forall l ds, Forall2 (udesc zc sec) l ds ->
+  Forall (ugood zc sec) ds /\ Forall2 rrset_equiv (map (urrset zc sec) ds) l.
+Proof.
+  intros Hs. induction 1 as [|rs d l ds (G & E) _ (IH1 & IH2)]; [split; constructor|].
+  split; [constructor; assumption|]. cbn [map]. constructor; assumption.
+Qed.
+
+(* dynamic updates: zone section, prerequisites and updates in all their forms (RRset exists value
+   independent / dependent, name in use / not in use, RRset does not exist; add, delete an RRset,
+   delete all RRsets of a name, delete an RR), additional records, EDNS and TSIG *)
+Theorem update_roundtrip_lemma m z ms rp w :
+  WfUpd o m z -> wf_tsig m -> to_wire m o ms rp false 0 = Ok w ->
+  exists m', from_wire w o po0 = Ok m' /\ msg_equiv_t m' m.
+Proof.
+  intros [WU WZ WN WT WC WA WUu WD WO] WTS H.
+  set (zc := rclass z) in *.
+  assert (WQ : Forall (fun rs => name_wf o (rname rs)) (mq m)) by (rewrite WZ; constructor; [exact WN|constructor]).
+  destruct (layout_final o OO (wf_urrset o zc) (fun sec l ds => Forall2 (udesc zc sec) l ds) (fun _ _ _ => False)
+                         (fun sec l r r' file => add_rrsets_chain_u0 o OO zc sec l r r' file) m ms rp w WQ WA WUu WD WO WTS H)
+    as (qs & ds1 & ds2 & ds3 & owner' & wb & body & e0 & e1 & e2 & e3 & e4 & t' & Ew & Hid & Hfl & L0 & L1 & L2 & L3 &
+        QC & C1 & C2 & C3 & QD & SD1 & SD2 & SD3 & HO & HT & TE & _).
+  rewrite WZ in QD. inversion QD as [|? q ? qs' (Q1 & Q2 & Q3 & Q4) QD']; subst. inversion QD'; subst.
+  destruct (udesc_lists zc 1 ltac:(lia) _ _ SD1) as (G1 & E1).
+  destruct (udesc_lists zc 2 ltac:(lia) _ _ SD2) as (G2 & E2).
+  destruct (udesc_lists zc 3 ltac:(lia) _ _ SD3) as (G3 & E3).
+  exists (read_result_u zc (mid m) (mflags m) q ds1 ds2 ds3 (mopt m) t'). split.
+  - change (zlen [q]) with 1 in *.
+    eapply (read_structure_u o zc); try eassumption.
+    + rewrite Q3. exact WT.
+    + rewrite Q4. exact WC.
+  - unfold read_result_u.
+    set (m0 := mkMsg (mid m) (mflags m) [] [] [] [] None None).
+    set (m1 := add_q m0 q).
+    destruct (fold_apply_u_keeps zc 1 ds1 ltac:(lia) m1) as (A1 & B1 & C1' & D1 & F1 & S1 & O1).
+    set (m2 := fold_left (apply_u zc 1) ds1 m1) in *.
+    destruct (fold_apply_u_keeps zc 2 ds2 ltac:(lia) m2) as (A2 & B2 & C2' & D2 & F2 & S2 & O2).
+    set (m3 := fold_left (apply_u zc 2) ds2 m2) in *.
+    destruct (fold_apply_u_keeps zc 3 ds3 ltac:(lia) m3) as (A3 & B3 & C3' & D3 & F3 & S3 & O3).
+    set (m4 := fold_left (apply_u zc 3) ds3 m3) in *.
+    assert (X : mid m4 = mid m /\ mflags m4 = mflags m /\ mq m4 = [mkRR (q_name q) (q_cl q) (q_ty q) 0 None 0 []] /\
+                man m4 = map (urrset zc 1) ds1 /\ mau m4 = map (urrset zc 2) ds2 /\ mad m4 = map (urrset zc 3) ds3 /\
+                mopt m4 = None /\ mtsig m4 = None).
+    { rewrite D3, D2, D1, F3, F2, F1, B3, B2, B1, A3, A2, A1, C3', C2', C1'.
+      pose proof (O3 1 ltac:(lia) ltac:(lia)) as P1. pose proof (O3 2 ltac:(lia) ltac:(lia)) as P2.
+      pose proof (O2 1 ltac:(lia) ltac:(lia)) as P3.
+      unfold get_sec in *. cbn [Z.eqb Pos.eqb] in *.
+      rewrite P1, P3, S1. rewrite P2, S2. rewrite S3.
+      pose proof (O2 3 ltac:(lia) ltac:(lia)) as P4. pose proof (O1 3 ltac:(lia) ltac:(lia)) as P5.
+      pose proof (O1 2 ltac:(lia) ltac:(lia)) as P6. unfold get_sec in *. cbn [Z.eqb Pos.eqb] in *.
+      rewrite P4, P5, P6. cbn [man mau mad m1 m0 add_q set_sec mq Z.eqb app]. repeat split; reflexivity. }
+    destruct X as (X1 & X2 & X3 & X4 & X5 & X6 & X7 & X8).
+    assert (QE : Forall2 q_equiv [mkRR (q_name q) (q_cl q) (q_ty q) 0 None 0 []] [z]).
+    { constructor; [|constructor]. unfold q_equiv. cbn [rname rclass rtype rcovers rdeleting rttl rrds]. auto 10. }
+    unfold msg_equiv_t, msg_equiv.
+    destruct (mopt m) as [o'|] eqn:EO; destruct t' as [[kn' rd']|];
+      cbn [mid mflags mq man mau mad mopt mtsig set_opt set_tsig tsig_equiv];
+      rewrite ?X1, ?X2, ?X3, ?X4, ?X5, ?X6, ?X7, ?X8, ?WZ.
+    + split; [repeat split; try assumption; destruct o'; reflexivity|]. destruct (mtsig m) as [[kn rd]|]; [exact TE|contradiction].
+    + split; [repeat split; try assumption; destruct o'; reflexivity|]. destruct (mtsig m) as [[kn rd]|]; [contradiction|exact Logic.I].
+    + split; [repeat split; assumption|]. destruct (mtsig m) as [[kn rd]|]; [exact TE|contradiction].
+    + split; [repeat split; assumption|]. destruct (mtsig m) as [[kn rd]|]; [contradiction|exact Logic.I].
+Qed.
+End UpdFinal.
